@@ -3,15 +3,19 @@
 
     payload := ( mode tag prop attr ( anc* ) init assign )
       mode   := cell                       -- the model of the code: dispatch over the generated tables (AHP.Gen)
+              | spec                       -- the documented rule (AHP.Conv.Spec) evaluated on the same cell:
+                                           --   result := ( setout value "htmlName" )  |  bare
+    payload := ( names )                   -- the documented name tables: ( ("tag" "prop"*)* ) ( "common"* )
       tag prop attr anc := string atoms    -- attr: the HTML attribute the cell initialises and observes
-      init   := absent | (bare) | (text "s")
-      assign := no | (s "text") | (i n) | (b true|false) | (n)          -- `em.prop = value` after the initialisation
+      init   := absent | (bare) | (text T)
+      assign := no | (s T) | (i n) | (b true|false) | (n)               -- `em.prop = value` after the initialisation
+      T      := "text" | (rep T n) | (cat T*)
 
     result := ( setout value attrvalue hasattr ( ("name" value?)* ) )
       setout := skip | ok | (raise E)
       value  := none | (s "text") | (i n) | (b true|false) | (t "w"*) | (anc i) | (obj what) | (raise E)
 -/
-import AHP.Model.Conv
+import AHP.Model.ConvSpec
 namespace Driver.C19
 open AHP AHP.Sexp AHP.Conv
 
@@ -39,8 +43,19 @@ def renderR : Except PyErr PyV → Sexp
 
 def toS? (x : Sexp) : Option String := (toStr? x).map String.ofList
 
+/-- text on the wire: a string atom, `(rep text n)` (n copies) or `(cat text*)` — long repetitive texts stay short. -/
+partial def toText? : Sexp → Option Str
+  | .list [.atom "rep", x, n] => do
+    let u ← toText? x
+    let k ← toNat? n
+    pure ((List.replicate k u).flatten)
+  | .list (.atom "cat" :: xs) => do
+    let parts ← xs.mapM toText?
+    pure parts.flatten
+  | x => toStr? x
+
 def parseV : Sexp → Option PyV
-  | .list [.atom "s", x] => (toStr? x).map .str
+  | .list [.atom "s", x] => (toText? x).map .str
   | .list [.atom "i", .atom n] => n.toInt?.map .int
   | .list [.atom "b", .atom "true"] => some (.bool true)
   | .list [.atom "b", .atom "false"] => some (.bool false)
@@ -50,7 +65,7 @@ def parseV : Sexp → Option PyV
 def parseInit (attr : String) : Sexp → Option (List (String × Option Str))
   | .atom "absent" => some []
   | .list [.atom "bare"] => some [(attr, none)]
-  | .list [.atom "text", x] => (toStr? x).map (fun s => [(attr, some s)])
+  | .list [.atom "text", x] => (toText? x).map (fun s => [(attr, some s)])
   | _ => none
 
 def observe (T : Tables) (e : Elem) (prop attr : String) (setout : Sexp) : Sexp :=
@@ -70,8 +85,29 @@ def runCell (T : Tables) (tag prop attr : String) (anc : List String) (init : Li
     | .ok e1 => observe T e1 prop attr (sym "ok")
     | .error err => observe T e0 prop attr (.list [sym "raise", sym (errName err)])
 
+/-- The documented rule on a cell (used by the harness to compare its Python restatement with `Spec`). -/
+def runSpec (tag prop : String) (anc : List String) (init : List (String × Option Str)) (assign : Option PyV) : Sexp :=
+  let r := Spec.srule tag prop
+  match init with
+  | [(_, none)] => sym "bare"
+  | _ =>
+    let st0 : Spec.St := match init with | [(_, some s)] => .text s | _ => .absent
+    let (setout, st) : Sexp × Spec.St := match assign with
+      | none => (sym "skip", st0)
+      | some v => match Spec.assign pyIntOfStr r v with
+        | .raise => (.list [sym "raise", sym "IndexSizeErrorException"], st0)
+        | .remove => (sym "ok", .absent)
+        | .store s => (sym "ok", .text s)
+    let cls := match st with | .text s => Spec.words s | .absent => []
+    .list [setout, renderV (Spec.expected pyIntOfStr r st anc cls), strAtom (Spec.htmlName prop).toList]
+
+def specNames : Sexp :=
+  .list [.list (Spec.tagProps.map (fun (t, ps) => .list (strAtom t.toList :: ps.map (fun p => strAtom p.toList)))),
+         .list (Spec.commonProps.map (fun p => strAtom p.toList))]
+
 def run (payload : String) : String :=
   match Sexp.parse payload with
+  | some (.list [.atom "names"]) => specNames.render
   | some (.list [.atom mode, tag, prop, attr, .list anc, init, assign]) =>
     match toS? tag, toS? prop, toS? attr, anc.mapM toS? with
     | some tag, some prop, some attr, some anc =>
@@ -85,6 +121,7 @@ def run (payload : String) : String :=
         | none => "bad-assign"
         | some asg =>
           if mode = "cell" then (runCell genTables tag prop attr anc init asg).render
+          else if mode = "spec" then (runSpec tag prop anc init asg).render
           else "bad-mode"
     | _, _, _, _ => "bad-case"
   | _ => "bad-case"
